@@ -452,6 +452,27 @@ fn de_replay(f: &dyn Fn(f64) -> C, exact_core: C, tol: f64, t_acc: f64) -> DeRep
     out
 }
 
+/// differences |S_l - S_{l-1}| of the harness's own tanh-sinh level sums for l = 0, 1 (workload
+/// shaping only: used to steer cases towards the first decisions of the stopping heuristic)
+fn de_first_differences(f: &dyn Fn(f64) -> C) -> (f64, f64) {
+    let nodes = de_nodes();
+    let mut integral = f(0.0) * std::f64::consts::FRAC_PI_2;
+    let mut d = [0.0f64; 2];
+    for (l, level) in nodes.iter().enumerate().take(2) {
+        let h = 0.5f64.powi(l as i32);
+        let mut s = C::new(0.0, 0.0);
+        for (x, w) in level {
+            s += (f(*x) + f(-*x)) * *w;
+        }
+        let new = if l == 0 { integral + s } else { integral * 0.5 + s * h };
+        // the routine under test starts from the one-point value pi f(0) and halves it at every
+        // level, so its first difference is |pi/2 f(0) - (level-0 sum)|, not |level-0 sum|
+        d[l] = if l == 0 { (integral - s).norm() } else { (new - integral).norm() };
+        integral = new;
+    }
+    (d[0], d[1])
+}
+
 // ------------------------------------------------------------------ textbook adaptive Simpson (work reference)
 
 struct BfOut {
@@ -1059,6 +1080,72 @@ fn run_err_case(rep: &mut Report, rng: &mut Rng, rt: Rt, kind: usize, complex: b
 // ------------------------------------------------------------------ stage bodies
 
 fn case_tanhsinh(rng: &mut Rng, rep: &mut Report) {
+    // Stratum "early levels" (40 % of the cases): loose tolerance, long interval, an oscillatory
+    // integrand of frequency 4..8 (optionally times a unit-modulus complex factor). This is where
+    // the squared-difference stopping heuristic of the first levels decides the outcome; a stop
+    // one level too early returns errors of 60..6000 tol there (seeded change C09-m3), but only
+    // about 1 in 4000 members of the general family is sensitive to it.
+    if rng.chance(0.4) {
+        let len = rng.r(2.5, 4.0);
+        let a = rng.r(-5.0, 5.0 - len);
+        let b = a + len;
+        let tol = rng.log10(-5.0, -3.0);
+        let complex = rng.chance(0.3);
+        let mut fun = Fun::zero(complex);
+        let n_s = 1 + rng.below(2);
+        for _ in 0..n_s {
+            fun.sins.push((rng.r(0.5, 1.5) * rng.sign(), rng.r(4.0, 8.0), rng.r(0.0, 6.283)));
+        }
+        if rng.bool() {
+            fun.poly = vec![C::new(rng.r(-1.0, 1.0), 0.0)];
+        }
+        if complex {
+            fun.exps.push((C::new(rng.r(-1.0, 1.0), rng.r(-1.0, 1.0)), C::new(0.0, rng.r(0.5, 3.0))));
+        }
+        rep.count("tanhsinh/early_levels_stratum", 1);
+        // the stratum is steered where possible: among up to 600 candidates take one whose first two
+        // level differences look "already quadratic" (ln d1 / ln d0 near 2 with d1^2 below the
+        // tolerance) — the coincidence that decides whether a premature stop would go unnoticed
+        {
+            let mut best: Option<(Fun, f64, f64, f64)> = None;
+            for _ in 0..600 {
+                let len = rng.r(2.5, 4.0);
+                let a2 = rng.r(-5.0, 5.0 - len);
+                let b2 = a2 + len;
+                let tol2 = rng.log10(-5.0, -3.0);
+                let mut f2 = Fun::zero(complex);
+                // stay inside the family the class is defined on: exponential type x half length <= 6.5
+                let wmax = (DE_SIGMA_CORE_MAX - 0.05) * 2.0 / len;
+                f2.sins.push((rng.r(0.5, 1.5) * rng.sign(), rng.r(0.6 * wmax, wmax), rng.r(0.0, 6.283)));
+                if complex {
+                    f2.exps.push((C::new(rng.r(-1.0, 1.0), rng.r(-1.0, 1.0)), C::new(0.0, rng.r(0.5, 3.0).min(wmax))));
+                }
+                let (scale, shift) = (0.5 * len, 0.5 * (a2 + b2));
+                let (d0, d1) = de_first_differences(&|t: f64| f2.eval_c(scale * t + shift));
+                if d0 > 0.0 && d1 > 0.0 && d0 < 1.0 && d1 < 1.0 {
+                    let r = d1.ln() / d0.ln();
+                    if r > 1.85 && r < 2.15 && d1 * d1 < tol2 {
+                        // keep only candidates that are in the class in which accuracy is required
+                        // (same predicate as run_tanhsinh applies)
+                        let (exact, mag) = f2.integral(a2, b2);
+                        let rp = de_replay(&|t: f64| f2.eval_c(scale * t + shift), exact / scale, tol2, 0.5 * tol2 / scale.max(1.0));
+                        let rounding_ok = FLOOR_C * EPS * mag * 2.0 <= tol2 / CLASS_FLOOR_DIV;
+                        if rounding_ok && rp.certain.is_some() && rp.potential_ok {
+                            best = Some((f2, a2, b2, tol2));
+                            break;
+                        }
+                    }
+                }
+            }
+            if let Some((f2, a2, b2, tol2)) = best {
+                rep.count("tanhsinh/early_levels_steered", 1);
+                run_tanhsinh(rep, &f2, a2, b2, tol2);
+                return;
+            }
+        }
+        run_tanhsinh(rep, &fun, a, b, tol);
+        return;
+    }
     let complex = rng.chance(0.3);
     let (a, b) = gen_interval(rng);
     let tol = gen_tol(rng);
